@@ -861,6 +861,32 @@ func (e *Env) evalCall(n *CCall) V {
 		case "int", "math":
 			v := e.eval(n.Args[0])
 			return mathV(x.toMathInt(v))
+		case "shares":
+			// shares(a, b): two slices have the same (non-nil) backing array
+			a := e.eval(n.Args[0])
+			b := e.eval(n.Args[1])
+			if !isSliceT(a.T) || !isSliceT(b.T) {
+				e.fail("shares() needs two slices")
+			}
+			return V{T: boolT, S: "(and (not (= (s_base " + a.S + ") 0)) (= (s_base " + a.S + ") (s_base " + b.S + ")))"}
+		case "sameArray":
+			// sameArray(a, b): two slices have the same backing array (possibly both nil)
+			a := e.eval(n.Args[0])
+			b := e.eval(n.Args[1])
+			if !isSliceT(a.T) || !isSliceT(b.T) {
+				e.fail("sameArray() needs two slices")
+			}
+			return V{T: boolT, S: "(= (s_base " + a.S + ") (s_base " + b.S + "))"}
+		case "allocated":
+			// allocated(x): x was allocated at or before the current state
+			v := e.eval(n.Args[0])
+			if isSliceT(v.T) {
+				return V{T: boolT, S: "(<= (s_base " + v.S + ") " + e.cur.alloc + ")"}
+			}
+			if pt, ok := x.ptrTerm(v); ok {
+				return V{T: boolT, S: "(<= " + pt + " " + e.cur.alloc + ")"}
+			}
+			e.fail("allocated() needs a slice, pointer or map")
 		case "heapUnchanged":
 			// heapUnchanged(): every object that existed in the old state has the same
 			// contents now (maps, slices' backing arrays, structs, globals)
